@@ -297,6 +297,8 @@ def header_crc_once(ck, P, R="PAIR/header-crc-once"):
 def run(ck):
     P = prog("K1")
     ck.configs.add("K1")
+    from .. import guards as _gas
+    _gas.arm_store_before_suspend(ck, P, fields=("adler", "gzindex"))
     c02.header_capture(ck, P, "GUARD/header-capture")
     done_flag(ck, P)
     fn = P.fn(D)
